@@ -28,7 +28,7 @@ theorem rho_fallthrough_panics :
       factor Toy.toyNoRho 20 188212 .rho () = .panic "unreachable!(impossible)" :=
   ⟨Toy.toyNoRho_ok, fun _ => by decide +kernel, by decide +kernel, by decide +kernel⟩
 
-/-- **`factor_total_partial`**. Under the oracle contract, for every `n` (inputs above 512 bits
+/-- **`factor_total_partial`**. Under the oracle contract, for every `n` (inputs above 510 bits
 are refused with the declared failure), every selector whose size precondition is met
 (`SelectorPre`: Qs64/Rho/Squfof need `bits n ≤ 64`), every `prime` and `abort` behaviour and
 fuel `≥ bits n`: `factor` returns a list (whose product is `n`) or the declared failure value —
